@@ -8,6 +8,8 @@ import McpModel.Wire.LemmasOrder
 import McpModel.Wire.LemmasInput
 import McpModel.Wire.LemmasSse
 import McpModel.Wire.LemmasBytes
+import McpModel.Wire.LemmasConc
+import McpModel.Wire.LemmasRef
 /-!
 # C19 (and the E2 part of C02) — property theorems of the wire engine
 
@@ -159,6 +161,71 @@ theorem split_lines_bytes (bs : Bytes) :
 theorem split_lines_unique (ls : List Bytes) (rest : Bytes) (h : ∀ l ∈ ls, LF ∉ l) (hr : LF ∉ rest) :
     splitLines (frame ls ++ rest) = (ls, rest) :=
   L.splitLines_unique ls rest h hr
+
+/-- **concurrent_writes_never_interleave.**  Writers `ws` (each a frame cut into the pieces in which the
+stream takes it) call `ioConn.Write` at the same time.  Under EVERY schedule — who wins `writeMu` when,
+when the stream takes the next piece — the stream holds, at every moment, whole frames of some of the
+writers, in the order in which they won the lock, followed by a prefix of the lock holder's frame: no byte
+of one frame ever stands inside another.  The frames done, the holder's and the waiting ones are the
+writers' frames (`Perm`: none lost, none twice). -/
+theorem concurrent_writes_never_interleave (ws : List (List Bytes)) (ops : List CWOp) :
+    (CW.run { waiting := ws } ops).Inv (ws.map List.flatten) :=
+  CW.run_inv _ ops _ ⟨[], [], by simp, by simp, by simp⟩
+
+/-- … and when every writer has returned, the stream is the concatenation of the frames in some order. -/
+theorem concurrent_writes_framed (ws : List (List Bytes)) (ops : List CWOp)
+    (hh : (CW.run { waiting := ws } ops).holder = none) (hw : (CW.run { waiting := ws } ops).waiting = []) :
+    ∃ order : List Bytes, order.Perm (ws.map List.flatten) ∧ (CW.run { waiting := ws } ops).out = order.flatten := by
+  obtain ⟨done, pre, hout, hpre, hperm⟩ := concurrent_writes_never_interleave ws ops
+  have := hpre hh
+  subst this
+  rw [hh, hw] at hperm
+  exact ⟨done, by simpa using hperm, by simpa using hout⟩
+
+/-- non-vacuity: two writers, frames in two pieces each; the second cannot get in between -/
+example : (CW.run { waiting := [[[1], [2, 10]], [[3], [4, 10]]] } [.acquire 1, .piece, .acquire 0, .piece, .acquire 0, .piece, .piece]).out
+    = [3, 4, 10, 1, 2, 10] := by decide
+
+/-! ## the `CompleteReference` codec -/
+
+/-- **ref_roundtrip.** Every reference `CompleteReference.MarshalJSON` accepts decodes (`UnmarshalJSON`) from
+what it wrote to itself. -/
+theorem ref_roundtrip (r : CRef) (v : JVal) (h : encodeRef r = .ok v) : decodeRef v = .ok r :=
+  L.ref_roundtrip r v h
+
+/-- **ref_encode_validates.** `MarshalJSON` writes exactly the consistent references: one of the two known types
+and only that type's own member (`name` for a prompt, `uri` for a resource). -/
+theorem ref_encode_validates (r : CRef) :
+    (∃ v, encodeRef r = .ok v) ↔ ((r.typ = refPromptType ∧ r.uri = []) ∨ (r.typ = refResourceType ∧ r.name = [])) :=
+  L.ref_encode_validates r
+
+/-- **ref_decode_validates.** Whatever `UnmarshalJSON` accepts — from ANY JSON value — is consistent: `MarshalJSON`
+writes it again, and that decodes to the same reference. -/
+theorem ref_decode_validates (v : JVal) (r : CRef) (h : decodeRef v = .ok r) :
+    ∃ v', encodeRef r = .ok v' ∧ decodeRef v' = .ok r :=
+  L.ref_decode_validates v r h
+
+/-- the member names are matched exactly: a reference whose type stands under `Type` has no type -/
+theorem ref_decode_case_sensitive (n u : Bytes) :
+    decodeRef (.obj [([84, 121, 112, 101], .str refPromptType), (CompleteReference_Name_name, .str n), (CompleteReference_URI_name, .str u)])
+      = .error .unknownType :=
+  L.ref_decode_case_sensitive n u
+
+example : encodeRef ⟨refPromptType, [112], []⟩ = .ok (.obj [([116, 121, 112, 101], .str refPromptType), ([110, 97, 109, 101], .str [112])]) := by
+  decide
+
+/-- **logging_transparent.**  A `LoggingTransport` hands every message on unchanged, in both directions: what
+its `Read` returns is what the delegate's `Read` returned, what its `Write` does to the stream is what the
+delegate's `Write` does. -/
+theorem logging_transparent (o : ReadOut) (m : Msg) (w : WriteOut) : (logRead o).1 = o ∧ (logWrite m w).1 = w :=
+  ⟨rfl, rfl⟩
+
+/-- **logged_payload_roundtrip.**  The payload logged for a well-formed message that was read or written decodes
+to that message. -/
+theorem logged_payload_roundtrip (m : Msg) (h : wfMsg m = true) :
+    (∃ v, (logRead (.msg m)).2 = .read v ∧ decodeMsg v = .ok m) ∧
+    (∀ w, w ≠ WriteOut.panic → ∃ v, (logWrite m w).2 = some (.write v) ∧ decodeMsg v = .ok m) :=
+  ⟨⟨_, rfl, decode_encode_msg m h⟩, fun w hw => ⟨_, by simp [logWrite, hw], decode_encode_msg m h⟩⟩
 
 /-- **ndjson_stream_roundtrip** (byte level, reader side of `ioConn`).  For EVERY list of values that are JSON
 objects or arrays as far as the decoder's scanner sees them (`framed`: the bracket depth outside string literals
@@ -327,6 +394,30 @@ theorem list_page_beyond_last_is_empty_array (k : RKind) (hk : k.isPaged = true)
     (keys : List Bytes) (ps : Nat) (uid : Bytes) (h : ∀ x ∈ keys, keyLt uid x = false) :
     listPage k item keys ps (.after uid) = (.sent (.arr []), none) :=
   L.list_page_beyond_last k hk item keys ps uid h
+
+/-- **required_lists_present after every history** (the client's `roots/list`).  Whatever sequence of
+`AddRoots` / `RemoveRoots` calls a client has seen — none, roots added and ALL of them removed again
+(one by one, at once, together with names that were never there), refilled … — the `roots` member of
+the result it sends is the ARRAY of the roots that are left, in key order; `[]` when none is left.
+Never `null`.  (The registry's state after a history is its key set: `regAfter`.) -/
+theorem required_lists_present_after_history (item : Bytes → JVal) (h : List RegOp) :
+    listAll .listRoots item (regAfter h) = .sent (.arr ((regAfter h).map item)) :=
+  L.listAll_sent item (regAfter h)
+
+/-- … in particular after the last root was removed: `[]`. -/
+theorem roots_emptied_is_empty_array (item : Bytes → JVal) (h : List RegOp) (he : regAfter h = []) :
+    listAll .listRoots item (regAfter h) = .sent (.arr []) := by
+  rw [required_lists_present_after_history, he]; rfl
+
+/-- non-vacuity: a history that fills and empties the registry -/
+example : regAfter [.add [[97], [98]], .rm [[97]], .rm [[98], [99]]] = [] := by decide
+
+/-- every registry the SDK lists (the server's four page by page, the client's roots whole), in every
+state and for every cursor that decodes: the list member sent is an array. -/
+theorem required_lists_present_listed (k : RKind) (hk : k.isListed = true) (item : Bytes → JVal)
+    (keys : List Bytes) (ps : Nat) (c : Cursor) (hc : c ≠ .garbage) :
+    ∃ items, (listReg k item keys ps c).1 = .sent (.arr items) :=
+  L.listReg_sent k hk item keys ps c hc
 
 /-- **call_tool_content_present** (required_members_present for `tools/call` through the low-level
 `Server.AddTool`). Whatever result a raw tool handler returns — `Content` nil, empty or not,
